@@ -240,6 +240,7 @@ impl<'a> Driver<'a> {
             return;
         }
         self.out.nodes += 1;
+        crate::watchdog::beat();
         let nv = self.f.n_vocab as u32;
         let canonical = self.job.vocab.canonical;
         let Some(exp) = self.reference(hist) else {
